@@ -250,6 +250,9 @@ func VerifCrash(kv map[string]string) string {
 				if len(ing.Spec.Rules) > 0 && r.below(2) == 0 {
 					ing.Spec.Rules[0].Host = "v9.ex" // the host of a served VirtualServer
 				}
+			} else if len(ing.Spec.Rules) > 0 && r.below(4) == 0 {
+				// an ordinary Ingress that claims the host of a served VirtualServer (it may get the solver label later, by an edit)
+				ing.Spec.Rules[0].Host = "v9.ex"
 			}
 			verifRepairIngress(ing, r)
 			objs = append(objs, ing)
@@ -330,8 +333,27 @@ func VerifCrash(kv map[string]string) string {
 		}
 		return "obj=" + strings.Join(parts, ",")
 	}
+	// metadata-only edits of the same objects (same UID, generation and annotations): the cert-manager solver label switched on or
+	// off — labels decide which validation applies, and nothing else tells the controller that the object changed
+	var edits []interface{}
+	if kv["kind"] == "ing" && r.below(2) == 0 {
+		for _, o := range objs {
+			if ing, ok := o.(*networking.Ingress); ok {
+				e := ing.DeepCopy()
+				if e.Labels == nil {
+					e.Labels = map[string]string{}
+				}
+				if isChallengeIngress(e) {
+					delete(e.Labels, "acme.cert-manager.io/http01-solver")
+				} else {
+					e.Labels["acme.cert-manager.io/http01-solver"] = "true"
+				}
+				edits = append(edits, e)
+			}
+		}
+	}
 	var shapes []string
-	for _, o := range objs {
+	for _, o := range append(append([]interface{}{}, objs...), edits...) {
 		if ing, ok := o.(*networking.Ingress); ok {
 			shapes = append(shapes, verifIngShape(ing))
 		}
@@ -348,6 +370,9 @@ func VerifCrash(kv map[string]string) string {
 		}()
 		for _, o := range objs {
 			deliver(kv["kind"], o, false)
+		}
+		for _, o := range edits {
+			deliver(kv["kind"], o, true)
 		}
 		// an endpoints change and a re-sync of everything exercise the regeneration paths with the object in place
 		w.apply("+e1.0/s1/a")
